@@ -200,11 +200,12 @@ func jeScenarios(c *Ctx, prop string) {
 		"C01": {"invalid-json": true, "panic": true, "entry-lost": true, "sink:hang": true},
 		"C02": {"value": true, "invalid-json": true},
 		"C08": {"value": true, "invalid-json": true, "panic": true},
+		"C07": {"value": true, "invalid-json": true},
 		"C10": {"invalid-json": true, "panic": true, "entry-lost": true, "value": true, "sink:not-reported": true, "sink:hang": true},
 	}[prop]
 	for rep := 0; rep < 3; rep++ {
 		fs := replayReflectOverlap()
-		if prop == "C01" || prop == "C10" {
+		if prop == "C01" || prop == "C10" || prop == "C07" {
 			fs = append(fs, replayAfterSinkError()...)
 		}
 		for _, f := range fs {
@@ -217,6 +218,9 @@ func jeScenarios(c *Ctx, prop string) {
 				}
 				if prop == "C08" {
 					k = "C08/pooled-object-observable"
+				}
+				if prop == "C07" {
+					k = "C07/fields" // a derived logger emitted something other than its own path's fields
 				}
 				c.Violation(k, f.What, map[string]interface{}{"scenario": "reflect-overlap / after-sink-error"})
 			}
